@@ -260,8 +260,8 @@ var profC01 = profile{
 	must: []string{"auth"}, may: []string{"confirm", "lock", "logout", "oauth2", "otp", "recover", "register", "remember"},
 	setups: []string{"totp", "sms", "recovery", "expire"}, kinds: worldKinds, minOps: 14, maxOps: 34,
 	accts: [2]int{2, 4}, browsers: [2]int{1, 3}, middlewares: []string{"", "remember", "remember", "expire"},
-	tweak:    func(t *rapid.T, c *harness.Config) { c.LockAfter = rapid.IntRange(2, 6).Draw(t, "lockafter2") },
-	faultPct: 8, // every C01 rule is a safety rule: it must hold whichever backend call fails
+	tweak:      func(t *rapid.T, c *harness.Config) { c.LockAfter = rapid.IntRange(2, 6).Draw(t, "lockafter2") },
+	faultPct:   8, // every C01 rule is a safety rule: it must hold whichever backend call fails
 	jsonMangle: 5,
 	acctTweak: func(t *rapid.T, i int, a *harness.AccountSpec, c *harness.Config) {
 		if a.Locked && chance(t, "unlockseed", 50) {
